@@ -32,6 +32,11 @@ void xvu_sess_free(void *p);
 #include "common_ctl.c"
 #undef XVU_STRCPY_SLOT
 #define XVU_STRCPY_SLOT 5
+#ifdef XVU_STRCPY64
+char *xvu_strcpy64(char *dst, const char *src);
+#undef strcpy
+#define strcpy(d, s) xvu_strcpy64((d), (s))
+#endif
 #define ut_malloc(n) xvu_sess_malloc(n)
 #define ut_free(p) xvu_sess_free(p)
 #include "xcmc.c"
